@@ -248,10 +248,19 @@ def run_case(ctx, rng, idx):
                     if p.start == tick:
                         cl = W.connect(p)
                         # connection set-up (and TLS handshake) at one virtual instant
-                        r = loop.until(lambda: cl.connected and cl.ca in W.srv.ixes,
-                                       [("C.serviceConnect", cl.serviceConnect), ("serve", serve)], 200)
+                        def c_rx(cl=cl):
+                            if cl.connected and not cl.cutoff:
+                                cl.serviceReceives()
+                        r = loop.until(lambda: (cl.connected and cl.ca in W.srv.ixes) or cl.cutoff,
+                                       [("C.serviceConnect", cl.serviceConnect), ("serve", serve), ("C.rx", c_rx)], 200)
+                        if cl.cutoff:
+                            # accepted and dropped by the server at the very instant of the accept
+                            ctx.fail("%s/%s/closed-before-idle-timeout" % (front, sock),
+                                     "%s (%s): connection closed by the server at the instant it was accepted, "
+                                     "timeout is %g" % (front, sock, T), wit({"connection": p.name}))
+                            return
                         if r is None:
-                            ctx.fail("%s/%s/not-connected" % (front, sock), "client did not connect in 200 rounds", wit())
+                            ctx.inconclusive_case("C28: client did not connect to the loopback server in 200 rounds")
                             return
                     for (t, data) in p.pieces:
                         if t == tick and p.name in W.clients:
